@@ -1,4 +1,5 @@
 pub mod vclock;
+pub mod lattice;
 
 use serde::{de::DeserializeOwned, Serialize};
 
